@@ -29,7 +29,7 @@ def reach(graph, roots):
         if x in seen:
             continue
         seen.append(x)
-        st += [y.lstrip('^') for y in graph.get(x, ())]
+        st += [y.lstrip('^') for y in graph.get(x, ()) if y != '!']
     return set(seen)
 
 
@@ -38,6 +38,8 @@ def dep_edges(graph):
     out = []
     for a, ds in graph.items():
         for d in ds:
+            if d == '!':
+                continue        # "this module is a back-end": no edge
             if d.startswith('^'):
                 out.append((d[1:], a, True))
             else:
@@ -111,7 +113,7 @@ def judge(case, rc, ev, out, err):
     graph, listing, have = case[:3]
     nopost = case[3] if len(case) > 3 else frozenset()
     noctor = case[4] if len(case) > 4 else frozenset()
-    allnodes = set(graph) | {y for v in graph.values() for y in v} | set(listing)
+    allnodes = set(graph) | {y.lstrip('^') for v in graph.values() for y in v if y != '!'} | set(listing)
     R = reach(graph, listing)
     missing = {m for m in R if have is not None and m not in have}
     V = []
@@ -148,10 +150,13 @@ def judge(case, rc, ev, out, err):
                 V.append(('C20.count', '%s of %s happened %d times (expected once)' % (what, m, n)))
             if m not in R and n:
                 V.append(('C20.count', '%s of %s happened although nothing requires that module' % (what, m)))
+    anti_pairs = {(a, c) for a, c, anti in dep_edges(graph) if anti}
     for a, c, anti in dep_edges(graph):
         if a not in R or c not in R:
             continue
-        if not anti:
+        # (an edge that the back-end ALSO declared with module_antidepends() loads the front-end from inside the back-end's constructor: the construction
+        # order of that pair is given by the mechanism itself and is not judged)
+        if not anti and (a, c) not in anti_pairs:
             if ('ctor-end', a) in pos and ('ctor-end', c) in pos and not pos[('ctor-end', c)] < pos[('ctor-end', a)]:
                 V.append(('C20.ctor-order', '%s finished constructing before its dependency %s' % (a, c)))
             if ('post-init', a) in pos and ('post-init', c) in pos and not pos[('post-init', c)] < pos[('post-init', a)]:
@@ -252,6 +257,18 @@ def cases(quick):
                         if l[0] in sub:
                             continue    # the first listed module is the one that ends the event loop: it needs a constructor
                         cs.append((g, l, None, frozenset(), frozenset(sub)))
+    # modules that call module_is_backend() (unloaded after the ordinary ones - and still in dependency order among themselves): every DAG on <= 3 nodes x
+    # every non-empty set of such modules x first-only and reversed listing
+    for n in (2, 3):
+        nm = names(n)
+        for g in all_graphs(n, False):
+            if cyclic(g, set(nm)):
+                continue
+            for k in range(1, n + 1):
+                for sub in itertools.combinations(nm, k):
+                    g2 = {m: (('!',) + g[m] if m in sub else g[m]) for m in nm}
+                    for l in ([nm[0]], nm[::-1], nm):
+                        cs.append((g2, list(l), None))
     # back-ends declared with module_antidepends(): one such edge alone, and next to one ordinary dependency, in every labelling and listing
     for n in (2, 3):
         nm = names(n)
